@@ -1,4 +1,136 @@
-import Anything.Model.Cbor
+import Anything.Model.Recovery
+import Mathlib.Tactic.IntervalCases
+/-!
+# C15 — the on-disk index always recovers to the shipped data
+
+State machine of `open_inner` / `open_index` (`Model/Recovery.lean`): a start of
+the tool killed at any crash point, or left to complete; damage done to the
+directory between starts. The theorems quantify over **every** directory state
+satisfying the invariant, every crash point (any natural number, not only the
+thirteen the hooks define) and histories of **unbounded** length.
+-/
+
 namespace Anything.Props.C15
-theorem C15_placeholder : True := trivial
+open Anything.Recovery
+
+/-- A crash point number no hook uses behaves like "no crash". -/
+theorem run_unused_cp (d : Dir) (k : Nat) (hk : 17 < k) : run d (some k) = run d none := by
+  have h : ∀ j, j ≤ 17 → hit (some k) j = false := by
+    intro j hj
+    simp only [hit, beq_eq_false_iff_ne, ne_eq, Option.some.injEq]
+    omega
+  have h' : ∀ j, hit none j = false := fun j => rfl
+  simp only [run, run.afterOpen, h 0 (by omega), h 1 (by omega), h 2 (by omega), h 3 (by omega),
+    h 4 (by omega), h 10 (by omega), h 11 (by omega), h 12 (by omega), h 13 (by omega),
+    h 14 (by omega), h 15 (by omega), h 16 (by omega), h 17 (by omega), h']
+
+/-- Case analysis over the thirty directory states. -/
+theorem dir_cases (P : Dir → Prop)
+    (h : ∀ md ∈ [MetaSt.absent, .garbage, .parsed false false, .parsed false true, .parsed true false, .parsed true true],
+         ∀ ix ∈ [IndexSt.absent, .unopenable, .opens .empty, .opens .old, .opens .current], P ⟨md, ix⟩)
+    (d : Dir) : P d := by
+  obtain ⟨md, ix⟩ := d
+  apply h
+  · cases md with
+    | absent => simp
+    | garbage => simp
+    | parsed v hh => cases v <;> cases hh <;> simp
+  · cases ix with
+    | absent => simp
+    | unopenable => simp
+    | opens c => cases c <;> simp
+
+theorem inv_run_small (k : Nat) (hk : k ≤ 17) : ∀ d : Dir, Inv d → Inv (run d (some k)).dir := by
+  interval_cases k <;> (apply dir_cases; decide)
+
+theorem inv_run_none : ∀ d : Dir, Inv d → Inv (run d none).dir := by
+  apply dir_cases; decide
+
+/-- **C15 (invariant, one start).** Whatever the crash point, a start of the tool
+preserves: "metadata says current ∧ the index opens → the committed index is the
+shipped data". -/
+theorem C15_inv_run (d : Dir) (cp : Crash) (h : Inv d) : Inv (run d cp).dir := by
+  cases cp with
+  | none => exact inv_run_none d h
+  | some k =>
+    by_cases hk : k ≤ 17
+    · exact inv_run_small k hk d h
+    · rw [run_unused_cp d k (by omega)]; exact inv_run_none d h
+
+/-- **C15 (invariant, damage).** The listed kinds of damage preserve the invariant. -/
+theorem C15_inv_damage (d : Dir) (x : Damage) (h : Inv d) : Inv (damage d x) := by
+  revert h; revert d
+  cases x with
+  | metaOtherVersion hh => cases hh <;> (apply dir_cases; decide)
+  | _ => apply dir_cases; decide
+
+/-- **C15 (invariant, every history).** Induction over histories of any length. -/
+theorem C15_inv_history (d : Dir) (es : List Event) (h : Inv d) : Inv (history d es) := by
+  induction es generalizing d with
+  | nil => exact h
+  | cons e es ih =>
+    apply ih
+    cases e with
+    | start cp => exact C15_inv_run d cp h
+    | damaged x => exact C15_inv_damage d x h
+
+/-- **C15 (a complete start answers from the shipped data).** From any state
+satisfying the invariant a start that is not killed answers exactly as the freshly
+built database, and leaves the directory complete. -/
+theorem C15_complete_start : ∀ d : Dir, Inv d →
+    run d none = ⟨⟨.current, .opens .current⟩, some true⟩ ∨
+    (run d none).answers = some true ∧ (run d none).dir = d := by
+  apply dir_cases; decide
+
+theorem C15_answers : ∀ d : Dir, Inv d → (run d none).answers = some true := by
+  apply dir_cases; decide
+
+/-- Every state the property lists satisfies the invariant. -/
+theorem C15_priors_inv : ∀ n ∈ ["absent", "complete", "other-version", "other-data", "meta-missing",
+    "meta-truncated", "meta-garbage", "index-missing", "index-damaged", "index-emptied"],
+    ∃ d, prior n = some d ∧ Inv d := by
+  decide
+
+/-- **C15 (recovery, full statement).** Start from any listed state (or any state
+satisfying the invariant), let any number of starts be killed at any points and any
+listed damage happen in between, in any order: the next complete start answers
+exactly as a freshly built database. -/
+theorem C15_recover (d : Dir) (es : List Event) (h : Inv d) :
+    (run (history d es) none).answers = some true :=
+  C15_answers _ (C15_inv_history d es h)
+
+/-- **C15 (never current before committed).** Whatever state a start begins in —
+even one violating the invariant — and wherever it is killed, it leaves the metadata
+saying "current" only if it found it so and did not touch the index, or the index it
+leaves is completely committed with the shipped data. -/
+theorem C15_never_early_small (k : Nat) (hk : k ≤ 17) : ∀ d : Dir,
+    (run d (some k)).dir.md = .current →
+      (run d (some k)).dir.index = .opens .current ∨ (run d (some k)).dir = d := by
+  interval_cases k <;> (apply dir_cases; decide)
+
+theorem C15_never_early_none : ∀ d : Dir,
+    (run d none).dir.md = .current →
+      (run d none).dir.index = .opens .current ∨ (run d none).dir = d := by
+  apply dir_cases; decide
+
+theorem C15_never_early (d : Dir) (cp : Crash) (h : (run d cp).dir.md = .current) :
+    (run d cp).dir.index = .opens .current ∨ (run d cp).dir = d := by
+  cases cp with
+  | none => exact C15_never_early_none d h
+  | some k =>
+    by_cases hk : k ≤ 17
+    · exact C15_never_early_small k hk d h
+    · rw [run_unused_cp d k (by omega)] at h ⊢; exact C15_never_early_none d h
+
+/-- The invariant is needed: a directory recorded as current over an empty index is
+never repaired (this is the state the defect repaired by 78292ab used to reach). -/
+theorem C15_inv_needed : (run ⟨.current, .opens .empty⟩ none).answers = some false := by decide
+
+/-- Non-vacuity: a non-trivial history — complete run, index directory removed, a start
+killed between index creation and commit, metadata damaged, two more killed starts. -/
+example : Inv ⟨.current, .opens .current⟩ ∧
+    history ⟨.current, .opens .current⟩
+      [.damaged .indexRemoved, .start (some 11), .damaged .metaGarbage, .start (some 3), .start (some 14)]
+      = ⟨.absent, .opens .current⟩ := by decide
+
 end Anything.Props.C15
